@@ -87,7 +87,7 @@ pub fn section_len(name: &str) -> u64 {
         "cmp-body" => per_variant(|v| sizes(v).2 * 6 * 256),
         "cmp-pool" => 5 * 64 * 64,
         "buffers" => per_variant(|v| 8 * 3 * (sizes(v).1 + 65) * 3),
-        "strings" => 5 * 34 * 34,
+        "strings" => 5 * (crate::checks::c13::STRING_ALPHABET_LEN * crate::checks::c13::STRING_ALPHABET_LEN) as u64,
         "lencode" => 65536 + 170 * 5,
         _ => 0,
     }
@@ -349,7 +349,8 @@ pub fn record(name: &str, idx: u64) -> Vec<u8> {
             fn go<V: Variant>(i: u64, out: &mut Vec<u8>) {
                 let alpha = crate::checks::c13::string_alphabet_lenient::<V>();
                 let n = alpha.len() as u64;
-                let (l, r) = (&alpha[((i / 34) % n) as usize], &alpha[((i % 34) % n) as usize]);
+                assert_eq!(n as usize, crate::checks::c13::STRING_ALPHABET_LEN);
+                let (l, r) = (&alpha[(i / n) as usize], &alpha[(i % n) as usize]);
                 match V::compare_with(l, r) {
                     Ok(d) => out.extend_from_slice(&d.to_le_bytes()),
                     Err(e) => {
@@ -358,7 +359,8 @@ pub fn record(name: &str, idx: u64) -> Vec<u8> {
                     }
                 }
             }
-            with_variant!(idx / 1156, go(idx % 1156, &mut out));
+            let nn = (crate::checks::c13::STRING_ALPHABET_LEN * crate::checks::c13::STRING_ALPHABET_LEN) as u64;
+            with_variant!(idx / nn, go(idx % nn, &mut out));
         }
         "lencode" => {
             let n: u32 = if idx < 65536 {
